@@ -208,9 +208,14 @@ func vfc18kSizesSorted(eps []Endpoint) []int {
 // Generators.
 // ---------------------------------------------------------------------------------------------
 
-// vfc18kAddresses returns n distinct non-empty endpoint addresses in one of several styles.
+// vfc18kAddresses returns n distinct non-empty endpoint addresses in one of several styles. Besides
+// free-form names there are host:port families in which members differ only in the port (several
+// receivers on one host), only in the host (same port everywhere), or in both (few hosts x few ports).
 func vfc18kAddresses(rng *rand.Rand, n int, prefix string) []string {
-	style := rng.Intn(5)
+	style := rng.Intn(8)
+	host := vfkit.Pick(rng, []string{"10.0.0.1", "receive-0.thanos.svc", "localhost", "[::1]", "h"})
+	basePort := vfkit.Pick(rng, []int{10901, 19291, 1, 80, 65000})
+	nHosts := 2 + rng.Intn(3)
 	seen := map[string]struct{}{}
 	var out []string
 	for i := 0; len(out) < n; i++ {
@@ -224,8 +229,14 @@ func vfc18kAddresses(rng *rand.Rand, n int, prefix string) []string {
 			a = fmt.Sprintf("%sthanos-receive-%d.thanos-receive.svc.cluster.local:10901", prefix, rng.Intn(1000))
 		case 3:
 			a = prefix + vfkit.Str(rng, 4, false)
-		default:
+		case 4:
 			a = fmt.Sprintf("%s%c", prefix, 'a'+rune(i))
+		case 5: // one host, different ports
+			a = fmt.Sprintf("%s%s:%d", prefix, host, basePort+i)
+		case 6: // few hosts x few ports
+			a = fmt.Sprintf("%s%s-%d:%d", prefix, host, i%nHosts, basePort+i/nHosts)
+		default: // different hosts, one port, scheme prefix as in the package's own tests
+			a = fmt.Sprintf("%shttp://%s-%d:%d", prefix, host, i, basePort)
 		}
 		if a == "" {
 			continue
@@ -237,6 +248,25 @@ func vfc18kAddresses(rng *rand.Rand, n int, prefix string) []string {
 		out = append(out, a)
 	}
 	return out
+}
+
+// vfc18kSibling derives an address of the same family as a: same host with another port, or another
+// host with the same port, when a looks like host:port; ok=false otherwise.
+func vfc18kSibling(rng *rand.Rand, a string) (string, bool) {
+	p := strings.LastIndexByte(a, ':')
+	if p <= 0 || p == len(a)-1 {
+		return "", false
+	}
+	host, port := a[:p], a[p+1:]
+	for _, c := range port {
+		if c < '0' || c > '9' {
+			return "", false
+		}
+	}
+	if rng.Intn(2) == 0 {
+		return fmt.Sprintf("%s:%d", host, 1+rng.Intn(65000)), true
+	}
+	return fmt.Sprintf("%s-x%d:%s", host, rng.Intn(100), port), true
 }
 
 // vfc18kSeries builds one series with 0..4 labels from the adversarial alphabet (names unique, sorted).
@@ -258,6 +288,49 @@ func vfc18kSeries(rng *rand.Rand) *prompb.TimeSeries {
 	return ts
 }
 
+// vfc18kBigSeries builds a series whose serialized labels exceed 1 KB (HashWithPrefix leaves its
+// stack buffer and streams the rest): one or two long values, or many short labels, or both.
+func vfc18kBigSeries(rng *rand.Rand) *prompb.TimeSeries {
+	m := map[string]string{"__name__": "big_" + vfkit.Str(rng, 2, true)}
+	switch rng.Intn(3) {
+	case 0: // long values
+		for i := 0; i < 1+rng.Intn(2); i++ {
+			m[fmt.Sprintf("long_%d", i)] = strings.Repeat(vfkit.Pick(rng, []string{"x", "ab", "é", "0:"}), 600+rng.Intn(1500))
+		}
+	case 1: // many labels
+		for i := 0; i < 60+rng.Intn(60); i++ {
+			m[fmt.Sprintf("label_%03d", i)] = fmt.Sprintf("value-%d-%s", rng.Intn(1000), vfkit.Str(rng, 2, false))
+		}
+	default: // a few small labels first, then the one that crosses the 1 KB boundary, then more
+		for i := 0; i < 5+rng.Intn(20); i++ {
+			m[fmt.Sprintf("a%02d", i)] = vfkit.Str(rng, 3, false)
+		}
+		m["m_long"] = strings.Repeat("v", 900+rng.Intn(300))
+		for i := 0; i < rng.Intn(10); i++ {
+			m[fmt.Sprintf("z%02d", i)] = vfkit.Str(rng, 3, false)
+		}
+	}
+	names := make([]string, 0, len(m))
+	for n := range m {
+		names = append(names, n)
+	}
+	sort.Strings(names)
+	ts := &prompb.TimeSeries{}
+	for _, n := range names {
+		ts.Labels = append(ts.Labels, labelpb.ZLabel{Name: n, Value: m[n]})
+	}
+	return ts
+}
+
+// vfc18kLabelBytes is the size of the labels as HashWithPrefix serializes them.
+func vfc18kLabelBytes(ts *prompb.TimeSeries) int {
+	n := 0
+	for _, l := range ts.Labels {
+		n += len(l.Name) + len(l.Value) + 2
+	}
+	return n
+}
+
 // vfc18kNumSeries builds a series {__name__="m", i="<i>"}: cheap, all distinct.
 func vfc18kNumSeries(i int) *prompb.TimeSeries {
 	return &prompb.TimeSeries{Labels: []labelpb.ZLabel{{Name: "__name__", Value: "m"}, {Name: "i", Value: fmt.Sprint(i)}}}
@@ -265,8 +338,16 @@ func vfc18kNumSeries(i int) *prompb.TimeSeries {
 
 func vfc18kFmtSeries(ts *prompb.TimeSeries) string {
 	var sb strings.Builder
-	for _, l := range ts.Labels {
-		fmt.Fprintf(&sb, "%q=%q,", l.Name, l.Value)
+	for i, l := range ts.Labels {
+		v := l.Value
+		if len(v) > 40 {
+			v = fmt.Sprintf("%s...(%d bytes)", v[:16], len(v))
+		}
+		if i >= 12 {
+			fmt.Fprintf(&sb, "...(%d labels, %d bytes)", len(ts.Labels), vfc18kLabelBytes(ts))
+			break
+		}
+		fmt.Fprintf(&sb, "%q=%q,", l.Name, v)
 	}
 	return sb.String()
 }
